@@ -1,9 +1,10 @@
 (* NonVacuous/C02.v — every C02 theorem with a hypothesis, instantiated on the example tree of Common.v.
    Each example has the form  hypotheses /\ instantiated conclusion ; the conclusion is obtained by applying
    the theorem to the proofs of the hypotheses.
+   C02_message_semantics is instantiated on the messages of CommonMsg.v (end of the file).
    Skipped (no hypothesis): C02_message_starts_at_root. *)
-From VF Require Import Base Gen_Errors Lexer Mnemonic Grammar Response Tree HeaderSpec Header_proofs Scripted Tree_proofs.
-From VF.NonVacuous Require Import Common.
+From VF Require Import Base Gen_Errors Lexer Mnemonic Grammar Response Tree HeaderSpec Header_proofs Scripted Tree_proofs MessageSpec.
+From VF.NonVacuous Require Import Common CommonMsg.
 From VF.Properties Require C02.
 Import C02.
 Open Scope N_scope.
@@ -165,3 +166,54 @@ Print Assumptions C02_resolve_sound_nonvacuous.
 Print Assumptions C02_resolve_complete_nonvacuous.
 Print Assumptions C02_designation_unique_nonvacuous.
 Print Assumptions C02_unit_common_keeps_context_nonvacuous.
+
+(* ------------------------------------------------------------------ *)
+(* C02_message_semantics, on the messages of CommonMsg.v               *)
+(* ------------------------------------------------------------------ *)
+(* " :SOURce:VOLT:RANG 7 ;lev?;*IDN? ; RANG?;LEV #H5;:sour:FREQ  -1.50E+3 ; :syst:version?<NL>": seven units; the
+   absolute header of the first leaves the context VOLTage, in which `lev?`, `RANG?` and `LEV` are read (the common
+   command in between does not move it); `:sour:FREQ` and `:syst:version?` start again at the root.  All seven handlers
+   run, in order; the four answers are framed by `;` and one NL. *)
+Example C02_message_semantics_nonvacuous :
+  wf_tree ex_tree /\ wf_msg m_ok = true /\
+  run ex_tree (render_msg m_ok) [] f0 = Val (spec_message ex_tree m_ok [] f0) /\
+  render_msg m_ok = bs " :SOURce:VOLT:RANG 7 ;lev?;*IDN? ; RANG?;LEV #H5;:sour:FREQ  -1.50E+3 ; :syst:version?" ++ [10] /\
+  spec_message ex_tree m_ok [] f0 = m_ok_result /\
+  r_err m_ok_result = None /\ r_out m_ok_result = bs "5;ACME,42;""AUTO"";VERS 1999.0" ++ [10] /\
+  map (fun x => fst (fst x)) (r_trace m_ok_result) = [3; 2; 1; 3; 2; 4; 5] /\ length (r_trace m_ok_result) = 7%nat.
+Proof.
+  exact (conj ex_tree_wf (conj m_ok_wf (conj (C02_message_semantics ex_tree m_ok [] f0 ex_tree_wf m_ok_wf)
+    (conj m_ok_text (conj m_ok_spec (conj eq_refl (conj eq_refl (conj eq_refl eq_refl)))))))).
+Qed.
+
+(* ":VOLT:RANG?;FREQ 1;*IDN?": the header of the SECOND unit is read in the context VOLTage left by the first and
+   designates nothing there: -113, no handler is invoked for it, the third unit is never reached (one trace entry) *)
+Example C02_message_semantics_nonvacuous_undefined :
+  wf_tree ex_tree /\ wf_msg m_113 = true /\
+  run ex_tree (render_msg m_113) [] f0 = Val (spec_message ex_tree m_113 [] f0) /\
+  render_msg m_113 = bs ":VOLT:RANG?;FREQ 1;*IDN?" /\
+  spec_message ex_tree m_113 [] f0 = m_113_result /\
+  r_err m_113_result = Some (std_error UndefinedHeader) /\ r_out m_113_result = bs """AUTO""" /\
+  r_trace m_113_result = [(3, true, bs """AUTO""")] /\ r_hook m_113_result = [std_error UndefinedHeader].
+Proof.
+  exact (conj ex_tree_wf (conj m_113_wf (conj (C02_message_semantics ex_tree m_113 [] f0 ex_tree_wf m_113_wf)
+    (conj m_113_text (conj m_113_spec (conj eq_refl (conj eq_refl (conj eq_refl eq_refl)))))))).
+Qed.
+
+(* "*IDN?;:SOUR:VOLT:RANG 5 , #B101;LEV?": the second unit carries two data elements, RANGe takes one: -108 after
+   the handler has run (two trace entries), LEV? is never run *)
+Example C02_message_semantics_nonvacuous_leftover :
+  wf_tree ex_tree /\ wf_msg m_108 = true /\
+  run ex_tree (render_msg m_108) [] f0 = Val (spec_message ex_tree m_108 [] f0) /\
+  render_msg m_108 = bs "*IDN?;:SOUR:VOLT:RANG 5 , #B101;LEV?" /\
+  spec_message ex_tree m_108 [] f0 = m_108_result /\
+  r_err m_108_result = Some (std_error ParameterNotAllowed) /\ r_out m_108_result = bs "ACME,42" /\
+  length (r_trace m_108_result) = 2%nat /\ r_dev m_108_result = [LCall 1 true; LCall 3 false; LTyped].
+Proof.
+  exact (conj ex_tree_wf (conj m_108_wf (conj (C02_message_semantics ex_tree m_108 [] f0 ex_tree_wf m_108_wf)
+    (conj m_108_text (conj m_108_spec (conj eq_refl (conj eq_refl (conj eq_refl eq_refl)))))))).
+Qed.
+
+Print Assumptions C02_message_semantics_nonvacuous.
+Print Assumptions C02_message_semantics_nonvacuous_undefined.
+Print Assumptions C02_message_semantics_nonvacuous_leftover.
